@@ -33,6 +33,7 @@ import (
 	"go/token"
 	"os"
 	"path/filepath"
+	"regexp"
 	"regexp/syntax"
 	"strconv"
 	"strings"
@@ -67,13 +68,20 @@ func (e *expr) lean() string {
 	case "rangeVal":
 		return ".rangeVal"
 	case "quote":
-		return ".quote (" + e.a.lean() + ")"
+		return ".quote " + paren(e.a)
 	case "cat":
-		return ".cat (" + e.a.lean() + ") (" + e.b.lean() + ")"
+		return ".cat " + paren(e.a) + " " + paren(e.b)
 	case "joinExcl":
 		return ".joinExcl " + leanBytes(e.s)
 	}
 	panic("unknown expr kind " + e.kind)
+}
+
+func paren(e *expr) string {
+	if e.kind == "rangeVal" {
+		return e.lean()
+	}
+	return "(" + e.lean() + ")"
 }
 
 // eval is the translator's own reading of the expressions (used only to print the pattern for the
@@ -131,6 +139,22 @@ func rightAssoc(e *expr) *expr {
 		leaves = append(leaves, x)
 	}
 	walk(e)
+	// adjacent literals are one literal, an empty literal is nothing ("[" + "^" and "[^" + "" are "[^")
+	var merged []*expr
+	for _, l := range leaves {
+		if l.kind == "lit" && l.s == "" {
+			continue
+		}
+		if n := len(merged); n > 0 && l.kind == "lit" && merged[n-1].kind == "lit" {
+			merged[n-1] = &expr{kind: "lit", s: merged[n-1].s + l.s}
+			continue
+		}
+		merged = append(merged, l)
+	}
+	if len(merged) == 0 {
+		merged = []*expr{{kind: "lit", s: ""}}
+	}
+	leaves = merged
 	out := leaves[len(leaves)-1]
 	for i := len(leaves) - 2; i >= 0; i-- {
 		out = &expr{kind: "cat", a: leaves[i], b: out}
@@ -443,21 +467,14 @@ func (t *tr) loop(s *ast.RangeStmt, res *result) {
 	res.exclOver, res.exclItem = i, rightAssoc(item)
 }
 
-func main() {
-	repo := flag.String("repo", "/repo", "repository root")
-	out := flag.String("out", "", "output directory (…/lean/Liquid/Generated)")
-	flag.Parse()
-	if *out == "" {
-		fmt.Fprintln(os.Stderr, "translate/tokenre: -out is required")
-		os.Exit(1)
-	}
-	srcPath := filepath.Join(*repo, "parser", "scanner.go")
+// generate reads srcPath (parser/scanner.go) and returns the text of TokenRe.lean, the pattern the translator
+// itself reads for the default delimiters (log only) and the facts that break the obligation.
+// modelFile: Liquid/TokenReSrc.lean (diagnostics).
+func generate(srcPath, modelFile string) (content, pattern string, broken []string, err error) {
 	fset := token.NewFileSet()
 	f, err := parser.ParseFile(fset, srcPath, nil, 0)
 	if err != nil {
-		fmt.Fprintf(os.Stderr, "translate/tokenre: FAILED: cannot parse %s: %v\n", srcPath, err)
-		fmt.Printf("OBLIGATION %s BROKEN translator T4 cannot parse parser/scanner.go: %s\n", obligation, strings.Join(strings.Fields(err.Error()), " "))
-		os.Exit(1)
+		return "", "", nil, err
 	}
 	t := &tr{fset: fset, imports: map[string]string{}}
 	for _, im := range f.Imports {
@@ -482,7 +499,7 @@ func main() {
 	} else {
 		res = t.function(fd)
 	}
-	// Scan must hand its (defaulted) delimiter list to formTokenMatcher: exactly one call, in Scan
+	// Scan must hand its (defaulted) delimiter list to formTokenMatcher: exactly one call in the file
 	calls := 0
 	ast.Inspect(f, func(x ast.Node) bool {
 		if c, ok := x.(*ast.CallExpr); ok && isIdent(c.Fun, "formTokenMatcher") {
@@ -498,7 +515,6 @@ func main() {
 	var sb strings.Builder
 	sb.WriteString("import Liquid.TokenReSrc\n")
 	sb.WriteString("/-! GENERATED by translate/tokenre (translator T4) from parser/scanner.go (formTokenMatcher). Do not edit. -/\n\n")
-	pattern := ""
 	if ok {
 		// the translator's own reading, for the log and the comment only
 		d := []string{"{{", "}}", "{%", "%}"}
@@ -524,6 +540,7 @@ func main() {
 			commentSafe(strconv.Quote(res.format)), commentSafe(strconv.Quote(pattern)))
 		fmt.Fprintf(&sb, "def genTokenReSrc : TokenReSrc :=\n  { format := %s,\n    args := [%s],\n    exclOver := %d,\n    exclItem := %s }\n",
 			leanBytes(res.format), strings.Join(args, ", "), res.exclOver, res.exclItem.lean())
+		t.diagnose(modelFile, res)
 	} else {
 		sb.WriteString("/-- NOT TRANSLATED (reported as OBLIGATION " + obligation + " BROKEN):\n")
 		for _, b := range t.broken {
@@ -531,7 +548,25 @@ func main() {
 		}
 		sb.WriteString("-/\ndef genTokenReSrc : TokenReSrc :=\n  { format := [], args := [], exclOver := 0, exclItem := .lit [] }\n")
 	}
-	for _, b := range t.broken {
+	return sb.String(), pattern, t.broken, nil
+}
+
+func main() {
+	repo := flag.String("repo", "/repo", "repository root")
+	out := flag.String("out", "", "output directory (…/lean/Liquid/Generated)")
+	flag.Parse()
+	if *out == "" {
+		fmt.Fprintln(os.Stderr, "translate/tokenre: -out is required")
+		os.Exit(1)
+	}
+	srcPath := filepath.Join(*repo, "parser", "scanner.go")
+	content, pattern, broken, err := generate(srcPath, filepath.Join(*out, "..", "TokenReSrc.lean"))
+	if err != nil {
+		fmt.Fprintf(os.Stderr, "translate/tokenre: FAILED: cannot parse %s: %v\n", srcPath, err)
+		fmt.Printf("OBLIGATION %s BROKEN translator T4 cannot parse parser/scanner.go: %s\n", obligation, strings.Join(strings.Fields(err.Error()), " "))
+		os.Exit(1)
+	}
+	for _, b := range broken {
 		fmt.Printf("OBLIGATION %s BROKEN %s\n", obligation, b)
 	}
 	if err := os.MkdirAll(*out, 0o755); err != nil {
@@ -539,12 +574,12 @@ func main() {
 		os.Exit(1)
 	}
 	dst := filepath.Join(*out, "TokenRe.lean")
-	if old, err := os.ReadFile(dst); err == nil && string(old) == sb.String() {
+	if old, err := os.ReadFile(dst); err == nil && string(old) == content {
 		fmt.Printf("T4: %s unchanged (pattern for the default delimiters: %s)\n", dst, pattern)
 		return
 	}
 	tmp := dst + ".tmp"
-	if err := os.WriteFile(tmp, []byte(sb.String()), 0o644); err != nil {
+	if err := os.WriteFile(tmp, []byte(content), 0o644); err != nil {
 		fmt.Fprintf(os.Stderr, "translate/tokenre: %v\n", err)
 		os.Exit(1)
 	}
@@ -553,6 +588,52 @@ func main() {
 		os.Exit(1)
 	}
 	fmt.Printf("T4: wrote %s (pattern for the default delimiters: %s)\n", dst, pattern)
+}
+
+var stdRe = regexp.MustCompile(`(?s)def stdTokenReSrc : TokenReSrc :=\s*\{ format := \[([0-9,\s]*)\],\s*args := \[(.*?)\],\s*exclOver := (\d+),\s*exclItem := (.*?) \}`)
+
+// diagnose compares the extracted structure with `stdTokenReSrc` of Liquid/TokenReSrc.lean, the structure
+// the Lean theorems are proved for, and names the differences (diagnostics only: the check is the Lean
+// theorem token_re_src_is_standard). Nothing is reported when that definition is not in the expected form.
+func (t *tr) diagnose(modelFile string, res *result) {
+	data, err := os.ReadFile(modelFile)
+	if err != nil {
+		return
+	}
+	m := stdRe.FindStringSubmatch(string(data))
+	if m == nil {
+		fmt.Println("T4: note: stdTokenReSrc of Liquid/TokenReSrc.lean is not in the expected form; no diagnostics")
+		return
+	}
+	var fb []byte
+	for _, f := range strings.FieldsFunc(m[1], func(r rune) bool { return r == ',' || r == ' ' || r == '\n' }) {
+		n, err := strconv.Atoi(f)
+		if err != nil || n < 0 || n > 255 {
+			return
+		}
+		fb = append(fb, byte(n))
+	}
+	squash := func(s string) string { return strings.Join(strings.Fields(s), " ") }
+	if string(fb) != res.format {
+		i := 0
+		for i < len(fb) && i < len(res.format) && fb[i] == res.format[i] {
+			i++
+		}
+		t.brk(token.NoPos, "formTokenMatcher: the format string of fmt.Sprintf is %q; the model (stdTokenReSrc) was written for %q; first difference at byte %d", res.format, string(fb), i)
+	}
+	args := make([]string, len(res.args))
+	for i, a := range res.args {
+		args[i] = a.lean()
+	}
+	if got := strings.Join(args, ", "); got != squash(m[2]) {
+		t.brk(token.NoPos, "formTokenMatcher: the arguments of fmt.Sprintf are [%s]; the model (stdTokenReSrc) has [%s]", got, squash(m[2]))
+	}
+	if got := strconv.Itoa(res.exclOver); got != m[3] {
+		t.brk(token.NoPos, "formTokenMatcher: the loop ranges over delims[%s]; the model (stdTokenReSrc) has delims[%s]", got, m[3])
+	}
+	if got := res.exclItem.lean(); got != squash(m[4]) {
+		t.brk(token.NoPos, "formTokenMatcher: the loop appends %s; the model (stdTokenReSrc) has %s", got, squash(m[4]))
+	}
 }
 
 func commentSafe(s string) string {
